@@ -8,10 +8,10 @@
 
 using namespace vc;
 
-static const int NB = 7;
-static const char *BNAME[NB] = {"ha", "hb", "wl", "li", "hi", "ab", "me"};
-static const bool MEMORYLESS[NB] = {true, true, true, true, false, false, false};
-static const bool NONBIASING[NB] = {false, false, false, false, true, true, false};
+static const int NB = 8;
+static const char *BNAME[NB] = {"ha", "hb", "wl", "li", "hi", "ab", "me", "hs"};
+static const bool MEMORYLESS[NB] = {true, true, true, true, false, false, false, true};
+static const bool NONBIASING[NB] = {false, false, false, false, true, true, false, false};
 
 static std::string colvars_conf(int tsf_d2)
 {
@@ -20,7 +20,7 @@ static std::string colvars_conf(int tsf_d2)
   s += "colvar {\n name d2\n width 0.5\n lowerBoundary 0.0\n upperBoundary 6.0\n";
   if (tsf_d2 > 1) s += " timeStepFactor " + std::to_string(tsf_d2) + "\n";
   s += " distance {\n group1 { atomNumbers 3 }\n group2 { atomNumbers 4 }\n }\n}\n";
-  s += "colvar {\n name d3\n width 0.5\n distance {\n group1 { atomNumbers 1 }\n group2 { atomNumbers 3 }\n }\n}\n";
+  s += "colvar {\n name d3\n width 0.5\n lowerBoundary 0.0\n upperBoundary 6.0\n distance {\n group1 { atomNumbers 1 }\n group2 { atomNumbers 3 }\n }\n}\n";
   return s;
 }
 
@@ -34,6 +34,7 @@ static std::string bias_conf(int b, int n)
   case 3: return "linear {\n name li\n colvars d3\n centers 0.0\n forceConstant 0.7\n" + t + "}\n";
   case 4: return "histogram {\n name hi\n colvars d1\n" + t + "}\n";
   case 5: return "abf {\n name ab\n colvars d2\n applyBias off\n fullSamples 1\n" + t + "}\n";
+  case 7: return "harmonic {\n name hs\n colvars d3\n centers 1.5\n forceConstant 2.5\n scaledBiasingForce on\n scaledBiasingForceFactorsGrid factors.grid\n" + t + "}\n";
   case 6: return "metadynamics {\n name me\n colvars d3\n hillWeight 0.5\n newHillFrequency 2\n hillWidth 1.0\n useGrids off\n" + t + "}\n";
   }
   return "";
@@ -55,6 +56,7 @@ struct Trace {
   std::vector<std::vector<double>> f;  // per step: 12 force components
   std::vector<double> e;
   bool ok = true;
+  bool config_ok = true;
   std::string err;
 };
 
@@ -84,6 +86,7 @@ static Trace run_case(Case const &c, Result &r)
   for (size_t i = 0; i < c.members.size(); i++) conf += bias_conf(c.members[i], c.tsf[i]);
   if (px->config(conf) != 0) {
     t.ok = false;
+    t.config_ok = false;
     t.err = px->errtxt;
     delete px;
     return t;
@@ -117,6 +120,15 @@ int main(int argc, char **argv)
   int maxn = thorough ? 4 : 3;
   int maxk = thorough ? 4 : 3;
   int nstart = thorough ? 6 : 4;
+
+  // grid of force-scaling factors for bias "hs" (multicolumn format: 12 bins of width 0.5 on [0,6])
+  {
+    FILE *g = fopen("factors.grid", "w");
+    if (!g) { perror("factors.grid"); return 2; }
+    fprintf(g, "# 1\n# 0.0 0.5 12 0\n\n");
+    for (int i = 0; i < 12; i++) fprintf(g, "%.2f %.3f\n", 0.25 + 0.5 * i, 0.4 + 0.15 * i);
+    fclose(g);
+  }
 
   // enumerate cases
   std::vector<Case> cases;
@@ -166,7 +178,14 @@ int main(int argc, char **argv)
       Case const &c = cases[ci];
       r.count("evaluations");
       Trace t = run_case(c, r);
-      if (!t.ok) { fprintf(stderr, "HARNESS-ERROR: configuration rejected %s: %s\n", c.json().c_str(), t.err.c_str()); exit(2); }
+      if (!t.config_ok) { fprintf(stderr, "HARNESS-ERROR: configuration rejected %s: %s\n", c.json().c_str(), t.err.c_str()); exit(2); }
+      if (!t.ok) {
+        // every member runs without error on its own (checked by single()), so an error here is an effect of the combination
+        for (size_t i = 0; i < c.members.size(); i++) single(c.members[i], c.tsf[i], c.start, c.tsf_d2);
+        r.violation("C08:superposition:error-in-combined-run-but-not-in-single-bias-runs",
+                    c.json().substr(0, c.json().size() - 1) + ",\"error\":\"" + jesc(t.err.substr(0, 300)) + "\"}");
+        continue;
+      }
       if (ci < 2 * (size_t) nsh && shard == 0) r.sample(c.json());
       // ---- oracle 1: superposition ----
       for (int k = 0; k < c.L; k++) {
